@@ -153,14 +153,19 @@ def check_index_spaces(chk, tus, it, tabs):
     for modname, fname, sym in (('wasi_snapshot_preview1', 'fd_write', 'wasi_snapshot_preview1__fd_write'),
                                 ('wasi_unstable', 'path_open', 'wasi_unstable__path_open'), ('wasi', 'thread-spawn', 'wasi__threadX2Dspawn')):
         b2 = lambda interp: M.build(interp, types=[([], [])], func_imports=[(modname, fname, 0)], functions=[0])
-        t = c03.one(chk, c03.run_script(it, c03.script(('call', {'imm0': 0})), ['i64'], module=b2), 'call import')
+        t = c03.one(chk, c03.run_script(it, c03.script(('call', {'imm0': 0})), ['i64'], module=b2), 'call import', 'R04.2', 'wasmModuleGetFunctionType')
+        if t is None:
+            continue
         m = re.match(r'(\w+)\(i\);', t.text().strip())
         chk.expect(m is not None and m.group(1) == sym and sym in wtu.functions, 'R04.2', 'host-symbol:' + fname,
                    'import ("%s","%s") is called as %r; the host library defines %s: the generated code would not link against it / call another function'
                    % (modname, fname, t.text().strip(), sym if sym in wtu.functions else 'no such symbol'), site + ':host-symbols')
     # prefixing (multiple modules): use, declaration and definition get the same prefix
     t = c03.one(chk, [x for x in (templates.Template(oracle.BY_NAME['nop'], p, 0, 1, ['i64', 'i32']) for p in it.explore(
-        templates.dispatch_setup(it, c03.script(('call', {'imm0': 3})), ['i64', 'i32'], 0, 1, 0, None, build, None)))], 'call prefixed')
+        templates.dispatch_setup(it, c03.script(('call', {'imm0': 3})), ['i64', 'i32'], 0, 1, 0, None, build, None)))], 'call prefixed',
+                'R04.2', 'wasmModuleGetFunctionType')
+    if t is None:
+        return
     decl_m = c06.emit_text(it2, 'wasmCWriteModuleDeclarations', lambda out: [out, Ptr({'v': mk()}, 'v'), 'mod', 0, 0, 1])
     chk.expect('mod_f3(' in t.text() and re.search(r'(?m)^U32 mod_f3\(', decl_m) is not None and re.search(r'(?m)^void mod_env__imp0\(', decl_m) is not None,
                'R04.2', 'prefix-agreement', 'with symbol prefixing the call is %r but the declarations are %r' % (t.text().strip(), re.findall(r'(?m)^\w+ (\w+)\(', decl_m)),
